@@ -1,5 +1,5 @@
 # per-check metadata consumed by tools_manifest.py (python, executed with check()/na() in scope)
-TECH = "bounded symbolic execution of the real python functions (path forking at solver-decided branches) + SMT (z3, cvc5 fallback) on every obligation; counterexamples replayed on the unshimmed code"
+TECH = "bounded symbolic execution of the real python functions (path forking at solver-decided branches) + SMT (z3, cvc5 fallback) on every obligation; counterexamples replayed on the unshimmed code; a path on which rpylib itself raises under the harness assumptions is solved for a model and re-run on plain numbers; auxiliary concrete reference runs flag code the symbolic harness cannot run (DESIGN 2.9b)"
 
 check("C14",
       "Bounded model checking of the real pairing/projection/enumeration code on symbolic integers: for every integer inside the stated bounds "
@@ -22,8 +22,9 @@ check("C02",
       "a histogram test cannot see a wrong interval of length 1e-6 or a failure at ties/zeros/multiples of 1/256.",
       "Trusted: z3/cvc5; the u-measure computation (leaf constraints affine in u with concrete coefficient, checked per constraint); Table method's "
       "32-bit integer modelled as (low byte, independent uniform); exact arithmetic (float rounding of cumulative sums outside). Bounds: vector "
-      "length <= 3 quick / 4-5 thorough, Table slot-count patterns as listed in evidence, inversion on 1-d grids up to 2+3 states. Chain-level "
-      "samplers (adapted binary search trees on Levy models) are checked under C01's harness, see DESIGN.",
+      "length <= 3 quick / 4-5 thorough, Table slot-count patterns as listed in evidence, inversion on 1-d grids up to 2+3 states; the 1-d adapted "
+      "binary search tree on an abstract Levy measure (up to 2+2 points, also after another chain was built and sampled on the same grid) and the n-d "
+      "adapted tree (3x3, 5x5, 3x3x3) run here with C01's harness.",
       TECH, "DESIGN.md section 3 C02")
 
 check("C12",
@@ -42,8 +43,10 @@ check("C11",
       "uniform-margin identities for Clayton (every theta>0, eta in [0,1], pow as an uninterpreted function with the power laws), independent and "
       "dependent copulas; non-negative volume of every rectangle with finite lower ends for the independent and dependent copulas (piecewise linear, "
       "decided exactly).",
-      "Trusted: z3; power-law axioms for pow. Outside: d-increasingness of Clayton (needs the sign of a mixed derivative), conditional "
-      "distribution/inverse, rectangles touching the corner (inf,...,inf) where F is infinite.",
+      "Trusted: z3; power-law axioms for pow; sympy's differentiation of the theta = 1 definition. The calculus clauses (stated mixed derivative = "
+      "mixed partial of the copula up to the orientation sign, conditional distribution in [0,1] = closed form, stated inverse inverts it) are decided "
+      "at theta = 1 only (rational copula), for every eta and argument, d = 2, 3, also after theta was re-assigned; other theta: float replay only. "
+      "Outside: d-increasingness of Clayton for general theta, volumes of rectangles touching (inf,...,inf) beyond 'F is +inf there'.",
       TECH, "DESIGN.md section 3 C11")
 
 check("C01",
